@@ -12,6 +12,12 @@ def build(repo, tier, seed):
     d_syn, d_und = dataset_tower.derive_obligations(repo)
     b = classlaws.bundle(repo, tier, seed, ("L2", "L3"), classes=classlaws.READY + ["Dataset"], extra_vcs=vcs + v2, extra_sanity=sanity)
     b["syntactic"] += syn2 + t_syn + d_syn
+    from .common import history_induction
+    h_syn, h_und = history_induction()
+    b["syntactic"] += h_syn
+    b["undecided"] += h_und
+    b["assumptions"].append("the step from the one-operation obligations (invariant established, preserved by every operation, good behaviour under the invariant) to every finite history "
+                            "is the abstract induction lean/Histories.lean, checked by the Lean 4 kernel (group Histories:lean); that the obligations instantiate its hypotheses is by inspection")
     b["undecided"] += und + und2 + t_und + d_und
     b["assumptions"] += ["INV (cache invariant) is preserved by every store: obligation Cached:L7:stores-the-memo-free-value; that INV then holds along every "
                          "history is the standard invariant argument (not mechanised)",
